@@ -694,3 +694,74 @@ func definitelyError(v ssa.Value) bool {
 	}
 	return false
 }
+
+// ---------- EFF-composite: an operation built from several journaled operations is undone when a later step rejects ----------
+
+// ruleEFFcomposite: an engine function that strings several journaling operations together (VEvolve: add the new
+// node, copy edges, link old→new, mark the old node) journals each step on its own; there is no transaction. If a
+// later step can still reject the request, the earlier ones have taken effect — now and after a restart. The shape
+// that keeps "a rejected operation changes nothing": after the first step succeeded, every return of a non-nil error
+// lies behind a compensating delete/unlink.
+func ruleEFFcomposite(w *World, r *Report) {
+	r.Doc("EFF-composite", "in an engine function that calls several journaling operations and can return an error, every error return that is reachable after one of those calls succeeded lies behind a compensating VDelete/VUnlink/KVDelete/VDeleteIndex", 1)
+	ops := map[*types.Func]bool{}
+	for _, fi := range w.journalingOps() {
+		ops[fi.Obj] = true
+	}
+	comp := map[string]bool{"Engine.VDelete": true, "Engine.VUnlink": true, "Engine.KVDelete": true, "Engine.VDeleteIndex": true}
+	isOp := func(in ssa.Instruction) bool {
+		c, ok := in.(*ssa.Call)
+		if !ok {
+			return false
+		}
+		o := calleeObj(&c.Call)
+		return o != nil && ops[o] && !comp[shortName(o)]
+	}
+	isComp := func(in ssa.Instruction) bool {
+		c, ok := in.(*ssa.Call)
+		if !ok {
+			return false
+		}
+		o := calleeObj(&c.Call)
+		return o != nil && comp[shortName(o)]
+	}
+	n := 0
+	for _, fi := range w.ModuleFuncs() {
+		if relPkg(fi.Obj) != "pkg/engine" || ops[fi.Obj] || isReplayOrRestore(fi.Obj) {
+			continue
+		}
+		sig := fi.Obj.Type().(*types.Signature)
+		nres := sig.Results().Len()
+		if nres == 0 || !isErrorType(sig.Results().At(nres-1).Type()) {
+			continue
+		}
+		fn := w.SSAFunc(fi.Obj)
+		if fn == nil {
+			continue
+		}
+		steps := findInstrs(fn, isOp)
+		if len(steps) < 2 {
+			continue
+		}
+		n++
+		name := shortName(fi.Obj)
+		errReturn := func(in ssa.Instruction) bool {
+			rt, ok := in.(*ssa.Return)
+			return ok && len(rt.Results) == nres && !isNilConst(retVal(rt, nres-1))
+		}
+		for i, m := range steps {
+			c := m.(*ssa.Call)
+			blocked := map[edgeKey]bool{}
+			if len(errValues(c)) > 0 {
+				blocked = failureEdges(fn, c)
+			}
+			found, wit := pathQuery{fn: fn, target: errReturn, avoid: isComp, blocked: blocked}.find(posOf(m))
+			callee := shortName(calleeObj(&c.Call))
+			r.Cond(!found, "EFF-composite", fmt.Sprintf("%s:step#%d:%s:later-rejection-is-undone", name, i+1, callee), w.Pos(m.Pos()), "every error return after this step succeeded lies behind a compensating delete/unlink", name+" can return an error after its step "+callee+" has already taken effect (and was journaled) without undoing it: the caller sees a rejected request, but part of it is in the database now and after every restart — for instance edges that point at the id of a node that was never created", w.witness(wit)...)
+		}
+	}
+	r.Count("composite_operations", n)
+	if n == 0 {
+		r.Ok("EFF-composite", "no-composite-operation", "", "no engine function strings several journaling operations together")
+	}
+}
